@@ -5,6 +5,7 @@ lena.core.FillRequestSeq, the fill/request branch of lena.core.Split.run.
 Model: lean/LenaModel/Model/C16.lean, theorems lean/LenaModel/Props/C16.lean.
 """
 import itertools
+import os
 import sys
 import time
 
@@ -12,71 +13,111 @@ from harness.common import exc_name
 
 PID = "C16"
 TITLE = "FillRequest processes the flow in consecutive blocks, however it is driven"
-LEAN_MODULES = ["LenaModel.Props.C16", "LenaModel.Props.C16X"]
+LEAN_MODULES = ["LenaModel.Props.C16", "LenaModel.Props.C16X", "LenaModel.Props.C16P"]
 LEAN_SOURCES = ["LenaModel/Model/C16.lean", "LenaModel/Model/C16Spec.lean", "LenaModel/Model/C16X.lean",
-                "LenaModel/Lemmas/C16.lean", "LenaModel/Lemmas/C16Run.lean", "LenaModel/Lemmas/C16Acc.lean",
-                "LenaModel/Lemmas/C16Yor.lean", "LenaModel/Lemmas/C16X.lean", "LenaModel/Props/C16.lean",
-                "LenaModel/Props/C16X.lean"]
+                "LenaModel/Model/C16P.lean", "LenaModel/Lemmas/C16.lean", "LenaModel/Lemmas/C16Run.lean",
+                "LenaModel/Lemmas/C16Acc.lean", "LenaModel/Lemmas/C16Yor.lean", "LenaModel/Lemmas/C16X.lean",
+                "LenaModel/Props/C16.lean", "LenaModel/Props/C16X.lean", "LenaModel/Props/C16P.lean"]
 DRIVER = "drivers/C16.lean"
+# the theorems that carry the property (clauses of the statement, the proved parts `_partial` of clauses that are false
+# at full strength together with the proved negations of the full clauses, and the statements about the dimensions the
+# review asked for: raising elements, partial reading, reset() in a history)
 THEOREMS = [
-    "Lena.C16.init_bufsize_pos",
+    # run yields block by block ...; final partial block iff yield_on_remainder; nothing for an empty flow
     "Lena.C16.run_blocks",
+    "Lena.C16.run_blocks_init",
     "Lena.C16.run_blocks_fresh",
     "Lena.C16.run_empty",
+    "Lena.C16.seq_run_blocks",
+    # ... for ANY wrapped element: Run elements that do not read their whole block (notes/C16_defect_1)
+    "Lena.C16.run_blocks_partial",
+    "Lena.C16.run_blocks_buffer_input",
+    "Lena.C16.not_run_blocks_full",
+    "Lena.C16.run_blocks_after_patch",
+    # through fill() with request() at arbitrary points: accounted once, equal to run (yield_on_remainder off)
     "Lena.C16.schedule_independent",
+    "Lena.C16.schedule_independent_init",
+    "Lena.C16.not_schedule_independent_full",
     "Lena.C16.split_equals_run",
     "Lena.C16.accounted_once",
-    "Lena.C16.buffers_bounded",
-    "Lena.C16.buffers_bounded_between",
-    # beyond the planned nine
-    "Lena.C16.schedule_yor",
-    "Lena.C16.init_accepts_iff",
     "Lena.C16.accounted_once_recorded",
+    "Lena.C16.schedule_yor",
+    # at most one block of buffered values or results
+    "Lena.C16.buffers_bounded_partial",
+    "Lena.C16.buffers_bounded_between_partial",
+    "Lena.C16.not_buffers_one_block_full",
+    # wrapped elements that raise LenaStopFill; FillRequest.reset() inside a history
+    "Lena.C16.split_stop_prefix",
+    "Lena.C16.run_stop_prefix",
+    "Lena.C16.split_bo_never_raises",
+    "Lena.C16.request_raises_only_buffered",
+    "Lena.C16.reset_mid_block",
+    "Lena.C16.reset_keeps_boundaries",
+]
+# supporting theorems: audited like the others, not counted as obligations of the property — constructor contract (three
+# transcriptions of one docstring), model-internal glue between definitions, closed witnesses, facts that are true by
+# construction of the model, statements about the adapter variant that keeps generator objects (not code of /repo)
+AUX_THEOREMS = [
+    "Lena.C16.init_bufsize_pos",
+    "Lena.C16.init_accepts_iff",
+    "Lena.C16.init_accepts_iff_contract",
     "Lena.C16.request_idempotent",
     "Lena.C16.traceOps_requests",
     "Lena.C16.traceOps_sizes",
-    "Lena.C16.seq_run_blocks",
-    # specification side as the driver evaluates it
-    "Lena.C16.init_accepts_iff_contract",
     "Lena.C16.invOps_holds",
-    # extended model (Model/C16X.lean): LenaStopFill, generator objects, FillRequest.reset()
     "Lena.C16.x_conservative",
-    "Lena.C16.request_raises_only_buffered",
-    "Lena.C16.split_bo_never_raises",
-    "Lena.C16.stopfill_escapes_buffer_input",
-    "Lena.C16.split_stop_prefix",
     "Lena.C16.runFillComputeX_ofEl",
-    "Lena.C16.run_stop_prefix",
+    "Lena.C16.stopfill_escapes_buffer_input",
     "Lena.C16.reset_only_element",
-    "Lena.C16.reset_mid_block",
-    "Lena.C16.reset_keeps_boundaries",
     "Lena.C16.atCall_keeps_no_generator",
     "Lena.C16.atRequest_reports_present",
     "Lena.C16.eager_evaluation_required",
 ]
 TRUSTED = [
     "Lean 4.33.0 kernel; axioms limited to propext, Classical.choice, Quot.sound (audited by #print axioms on every run)",
-    "hand transcription of FillRequest.__init__/fill/request/reset/_run_fill_compute/_run_run, FillRequestSeq.__init__/request and "
-    "the fill/request branch of Split.run (also with LenaStopFill) into LenaModel/Model/C16.lean and Model/C16X.lean, validated by "
-    "this correspondence check (thorough tier: exhaustive over every request schedule of flows up to length 8 and every history "
-    "over fill/request()/reset() up to length 5; quick tier: schedules up to length 6, histories up to length 3, + samples)",
+    "hand transcription of FillRequest.__init__/fill/request/reset/_run_fill_compute/_run_run (the three variants also for "
+    "a Run element that reads only part of its block), FillRequestSeq.__init__/request and the SCHEDULE of fill/request calls "
+    "that Split.run makes on one fill/request branch (not a transcription of Split.run: that is C03's, linked on the model "
+    "side by LenaModel/Bridge/Split) into LenaModel/Model/C16.lean, C16X.lean, C16P.lean, validated by this correspondence "
+    "check on the generated cases only (quick: every request schedule of flows up to length 6, histories up to length 3, "
+    "random combinations of the other dimensions; thorough: lengths 8 / 5 and more samples; the committed evidence file is "
+    "the last run, usually a quick one)",
     "the specification side of the theorems (specBlocks/chunks, emitAll over segments, runFillCompute on the filled values, "
-    "invOps, initContract, the recording element) is evaluated by the driver on the same cases and compared with the real code / "
-    "Python references",
+    "invOps, initContract, the recording element, specBlocksP) is evaluated by the driver on the same cases and compared with "
+    "the real code / Python references (missing fields are a harness error); not executed: the existential witness of "
+    "accounted_once for an abstract element (only its recording-element instance)",
+    "initContract, mkFillRequest and the Python ref_init are three readings of one docstring by the same author",
     "itertools.islice / itertools.chain semantics on iterators, and Python generator objects (body runs when iterated), as "
     "transcribed (validated likewise; the adapter that keeps generator objects against a Python subclass of the real FillRequest)",
     "JSON line protocol encoders (harness/props/c16.py, drivers/C16.lean)",
 ]
 ASSUMPTIONS = [
     "the flow handed to run is an iterator (as Sequence.run guarantees via flow_to_iter); a list would be re-read by islice",
-    "the wrapped element's run reads its whole block and the generators request()/run() of the ADAPTER are consumed to the end "
-    "before the next call (as Split.run and FillRequest.run do); generator objects of the wrapped ELEMENT are modelled "
-    "(Model/C16X.lean: body runs when iterated)",
-    "the only exception a wrapped element raises is LenaStopFill from fill (modelled in Model/C16X.lean: Split and "
-    "_run_fill_compute with such an element); the theorems of Props/C16.lean are about elements that never raise",
-    "a mutable wrapped element is a state threaded through fill/request/reset/run (no aliasing with the flow values)",
-    "real termination is covered by totality of the model functions plus a step watchdog (executed lines of lena code, "
-    "sys.monitoring) and a wall-clock watchdog on the real code",
+    "the generators request()/run() of the ADAPTER are consumed to the end before the next call (as Split.run and "
+    "FillRequest.run do): a caller that abandons request() half-way leaves _buffer_out already emptied and _n_count not yet "
+    "zeroed — outside the statement ('called at arbitrary points', not 'abandoned'); generator objects of the wrapped "
+    "ELEMENT are modelled (Model/C16X.lean)",
+    "VALUE SEMANTICS OF RESULTS (judgement, notes/C16_judgement_1.md): what the wrapped element yields is not changed by its "
+    "later fill/reset. An element that yields its live state and resets it in place (review F2) has no stable results: "
+    "buffer_output keeps references, so Split(bufsize=7) around bufsize=3 shows [[6],[6]] where run shows [[0,1,2],[3,4,5]] "
+    "to a consumer that copies at once. Judged outside the statement (results are compared as values; any consumer that "
+    "stores them — list(), Split's own buffer — sees the same); such elements are generated for run and for buffer_input "
+    "(where the statement still holds, results snapshotted when yielded), not for buffer_output under fill/request",
+    "the only exception a wrapped element raises is LenaStopFill from fill (modelled in Model/C16X.lean); an exception from "
+    "el.request() in the middle of its results is not modelled",
+    "a Run element may read only part of its block (Model/C16P.lean; notes/C16_defect_1.md: the code handles it only with "
+    "buffer_input — reported as VIOLATION until the patch is applied); an element that reads nothing while the adapter's "
+    "stale count keeps the loop going is cut off by the model's fuel and the harness watchdog",
+    "internal attributes _n_count, _buffer_in, _buffer_out are compared (their sizes): the property names them under "
+    "observe_at and its last clause is about them; a rewrite that renames them needs _sizes() in the harness adapted",
+    "a mutable wrapped element is a state threaded through fill/request/reset/run; flow values are opaque to the adapter "
+    "(generated: None, equal values, (data, context) pairs, strings, floats) and to the model (codes)",
+    "'every call returns in finite time' is NOT a theorem: every Lean definition is total, so totality says only that the "
+    "transcribed loops end given that the element's methods return and results are finite lists (the hanging pre-fix fill "
+    "could not even be written down in the model); evidence for the real code is the step watchdog (3 000 000 executed lines "
+    "of lena code, sys.monitoring) and the wall-clock watchdog on every generated case — sampling, not proof",
+    "Split means: one fill/request branch, alone or between a Sequence sibling and a FillCompute sibling, copy_buf on or off; "
+    "the branch given as adapter, 1-tuple, FillRequestSeq, or (f, adapter, g)",
 ]
 RULE = ("thorough, exhaustive: FillRequest.__init__ for every subset of {run,fill,request,compute,reset} x reset in "
         "{None,True,False} x buffer_input,buffer_output in {None,True,False}^2 x yield_on_remainder x bufsize in {-1,0,1,3}; "
@@ -96,8 +137,19 @@ RULE = ("thorough, exhaustive: FillRequest.__init__ for every subset of {run,fil
         "9000 seeded samples of the rest of the thorough fill/request scope; histories of length <= 3 exhaustively + 6000 "
         "random longer ones + 3000 on the generator-keeping adapter; Split for all flows 0..8 as element and lengths "
         "0,3,5,7,8 as tuple / FillRequestSeq (1-result, yield_on_remainder off), lengths 0,5,8 as element otherwise; 15% of the Split/LenaStopFill cases. "
+        "Both tiers start with: __init__ with non-bool flags / float and fractional bufsize / a non-callable run attribute; "
+        "250 (500) long flows (20..48 values, few or no requests, Split block sizes 18..1000/None); 9000 (60000) random "
+        "combinations of: flow values from {None, 0, 7, (1, {'c': 1}), 'x', 2.5} with repetitions, result count depending on "
+        "the element state (zero results for some blocks), methods named by the fill=/request=/reset_name= keywords (with "
+        "decoys under the default names), float bufsize and truthy non-bool flags, results that are the element's live state "
+        "(not with buffer_output under fill/request), a second flow on the same adapter / Split object, run after a "
+        "fill/request history, (f, adapter, g) branches, a Sequence sibling that changes its copy of the block and a "
+        "FillCompute sibling with copy_buf on/off; Run elements that read 0..3 values of their block. "
         "Non-trivial: at least one result yielded or an exception.")
 CASE_TIMEOUT = 5
+# set to True when notes/C16_defect_1.patch is applied to /repo: the "runp" cases are then compared with the model of the
+# patched `_run_run` (driver field "fixed", theorem run_blocks_after_patch) instead of `runRunP` (the code as it is now)
+RUNP_PATCHED = bool(os.environ.get("C16_RUNP_PATCHED"))
 
 KINDS_FILL = ("fc", "fr", "both")          # kinds that have fill/request on the adapter
 KINDS_RUN = ("run", "map", "fc", "fr", "frc", "both", "frseq")
@@ -135,7 +187,7 @@ POOL = [None, 0, 7, (1, {"c": 1}), "x", 2.5]
 
 def _code_of(v):
     for i, pv in enumerate(POOL):
-        if v is pv or (type(v) is type(pv) and v == pv):
+        if type(v) is type(pv) and v == pv:
             return i
     return v
 
@@ -149,7 +201,9 @@ def flow_codes(case, start=0, n=None):
 
 
 def py_flow(case, codes):
-    return [POOL[c] for c in codes] if case.get("vals") is not None else list(codes)
+    """fresh objects for every case (a branch of Split may change the values it is handed)"""
+    import copy
+    return [copy.deepcopy(POOL[c]) for c in codes] if case.get("vals") is not None else list(codes)
 
 
 class _Live(list):
@@ -166,11 +220,12 @@ def enc(case, r):
 
 
 def make_el(kind, k, mut, has_reset, caps=None, stop=None, stores=False, kpar=False, names=False, readj=None,
-            alias=False):
+            alias=False, codef=None):
     """An element whose fill appends to a list v; request/compute/run yield [j]+v for j<k and then
     (mut) append -1 to v; kind 'map': run yields [x+100] per value and keeps no state.
     stop: fill raises LenaStopFill for every value >= stop (after storing it if `stores`).
-    kpar: the number of results depends on the state (k while an odd number of values is held, none otherwise).
+    kpar: the number of results depends on the state (k while the values held sum to an odd number — `codef` gives the
+          number a value stands for —, none otherwise).
     names: the methods are called put / get / clear (and fill / request / reset are decoys that must not be used).
     readj: run reads at most readj values of the flow it is given (a Run element that breaks the flow).
     alias: the one result is the live state itself and reset empties it in place.
@@ -190,7 +245,7 @@ def make_el(kind, k, mut, has_reset, caps=None, stop=None, stores=False, kpar=Fa
         if alias:
             yield e.v
             return
-        kk = (k if len(e.v) % 2 == 1 else 0) if kpar else k
+        kk = (k if sum((codef(x) if codef else x) for x in e.v) % 2 == 1 else 0) if kpar else k
         for j in range(kk):
             yield [j] + list(e.v)
         if mut:
@@ -343,7 +398,7 @@ def make_adapter(case):
     import lena.core
     kind = case["kind"]
     if kind == "frseq":
-        el = make_el("fr", case["k"], case["mut"], True, kpar=bool(case.get("kpar")))
+        el = make_el("fr", case["k"], case["mut"], True, kpar=bool(case.get("kpar")))   # no "vals" with frseq
         args = []
         pre, post = _code(case.get("pre")), _code(case.get("post"))
         if pre:
@@ -354,7 +409,7 @@ def make_adapter(case):
         return lena.core.FillRequestSeq(*args, **_kw(case))
     el = make_el(kind, case["k"], case["mut"], case["hr"], stop=case.get("stop"), stores=bool(case.get("stores")),
                  kpar=bool(case.get("kpar")), names=bool(case.get("names")), readj=case.get("j"),
-                 alias=bool(case.get("alias")))
+                 alias=bool(case.get("alias")), codef=_code_of if case.get("vals") is not None else None)
     cls = _lazy_adapter_class() if case.get("ev") == "request" else lena.core.FillRequest
     return cls(el, **_kw(case))
 
@@ -824,6 +879,8 @@ def compare(case, res, replies):
             return f"impl {res['r']} raised={res['raised']} vs model {m['r']} raised={m['raised']}"
         return None
     if op == "runp":
+        if RUNP_PATCHED:
+            return None if res["r"] == m["fixed"] else f"impl {res['r']} vs model of the patched _run_run {m['fixed']}"
         if m["spin"]:
             return f"the model's _run_run loop does not end on this case (model {m}); impl returned {res['r']}"
         return None if res["r"] == m["r"] else f"impl {res['r']} vs model {m['r']}"
@@ -886,7 +943,7 @@ def ref_run(case, flow):
             if case.get("j") is not None:
                 block = block[:case["j"]]       # a Run element that reads only the first j values of its block
             v = v + [y for x in block for y in pre_ref(pre, x)]
-            kk = (k if len(v) % 2 == 1 else 0) if case.get("kpar") else k
+            kk = (k if sum(v) % 2 == 1 else 0) if case.get("kpar") else k
             out.extend(r for j in range(kk) for r in post_ref(post, [j] + v))
             if mut:
                 v = v + [-1]
@@ -1235,7 +1292,8 @@ def gen_cases(ctx):
     ctx.notes = (["thorough: the scope of the property's quantifier (flows 0..8, bufsize 1..5, every request schedule, "
                   "every flag combination, Split bufsizes) is enumerated completely; only the schedules for flows "
                   "9..40 and the long histories with reset()/LenaStopFill are sampled"] if thorough else
-                 ["quick: every request schedule of flows 0..6 (1-result element) enumerated; flows of length 7 and 8, "
+                 ["notes/C16_defect_1: the runp cases (Run element reading part of its block) fail on /repo until the patch "
+                  "is applied", "quick: every request schedule of flows 0..6 (1-result element) enumerated; flows of length 7 and 8, "
                   "the 2-result / state-changing elements and the histories with reset()/LenaStopFill sampled — "
                   "the thorough tier enumerates them"])
     # --- __init__ ---------------------------------------------------------------------------
@@ -1492,6 +1550,9 @@ def signature(case, failure):
     concrete shrunk input), so that one defect is reported a few times, not once per failing schedule"""
     if case["op"] == "init":
         return "init:" + ",".join(f"{k}={case[k]}" for k in sorted(case) if k != "op")
+    if case["op"] == "runp":
+        # one finding (notes/C16_defect_1): a Run element that reads only part of its block
+        return "runp:run-element-reads-part-of-its-block"
     extra = ""
     if case["op"] in ("opsx", "splitx", "runx"):
         extra = f",stop={case.get('stop') is not None},ev={case.get('ev', 'call')}"
@@ -1543,21 +1604,28 @@ def shrink(case):
 
 
 # ---- MANIFEST texts ------------------------------------------------------------------------
-LEVEL_TEXT = ("Lean 4 theorems about a transcribed model of FillRequest (__init__, fill, request, reset, the four run loops), "
-              "FillRequestSeq and Split's fill/request schedule, for an abstract wrapped element, every block size, every "
-              "flow and every history of fill/request calls (no bound): run equals the block specification, any request "
-              "schedule closed by a request yields what run yields (also as driven by Split, any Split block size), every "
-              "value is accounted exactly once (the filled values are cut into the emitted blocks, the pending values and "
-              "the input buffer), buffers are empty after request and bounded between requests. The model is tied to /repo "
-              "by a correspondence check that enumerates every subset of request points for flows up to length 8 (thorough; "
-              "7 + samples in quick; all flag combinations, bufsize 1..5) and Split bufsizes around a FillRequest branch, "
-              "plus a direct block-by-block Python reference oracle and step/wall-clock watchdogs on the real code. An extended "
-              "model covers wrapped elements that raise LenaStopFill (Split yields the block results of the accepted values; "
-              "LenaStopFill escapes request() only through the input buffer), generator objects of the element (the adapter "
-              "of /repo keeps none; one that keeps them reports the element's present state: eager evaluation is required) and "
-              "FillRequest.reset() in the middle of a history (block boundaries do not move).")
-LEVEL_NOTE = ("Trusted: Lean kernel (+ propext, Classical.choice, Quot.sound), the hand transcription validated by the "
-              "exhaustive-in-scope correspondence run, iterator semantics of islice/chain as transcribed, the JSON protocol. "
-              "Real termination is modelled by totality and watched by a per-case timeout.")
+LEVEL_TEXT = ("Lean 4 theorems about a hand-transcribed model of FillRequest (__init__, fill, request, reset, the run loops), "
+              "FillRequestSeq and the schedule of calls Split makes on a fill/request branch, for an abstract wrapped element "
+              "with value semantics, every block size, flow and history of fill/request calls (no bound). PROVED: run equals "
+              "the block specification for fill/compute and fill/request elements and for Run elements that read their whole "
+              "block (for Run elements that stop reading early only with buffer_input: the full clause is false of the code, "
+              "proved negation, notes/C16_defect_1, reported as VIOLATION until patched); any request schedule closed by a "
+              "request yields what run yields, also as driven by Split with any block size (for elements that also have run: "
+              "under the hypothesis that their run is fill-then-request; proved negation without it); every value is "
+              "accounted exactly once (all flags); with yield_on_remainder the results are the blocks of each segment; right "
+              "after request() nothing is buffered, between requests exactly the values filled since are buffered in whole "
+              "blocks — 'at most one block' only when at most n values are filled between two requests (the unrestricted "
+              "clause is false: proved negation). NOT PROVED: 'every call returns in finite time' (only: the transcribed "
+              "loops are total given terminating element methods; the real code is watched by a step budget and a wall clock "
+              "on the generated cases). Also modelled and proved: elements that raise LenaStopFill, FillRequest.reset() inside "
+              "a history. The model is tied to /repo by a correspondence check on generated cases (every subset of request "
+              "points for flows up to 8 in thorough / 6 in quick, all flags, bufsize 1..5, Split block sizes, plus random "
+              "combinations of flow values, state-dependent result counts, method-name keywords, non-int arguments, sibling "
+              "branches, re-use of adapter and Split objects, long flows) and a block-by-block Python reference oracle.")
+LEVEL_NOTE = ("Trusted: Lean kernel (+ propext, Classical.choice, Quot.sound); the hand transcription, validated only on the "
+              "generated cases; iterator and generator semantics as transcribed; the JSON protocol. Not verified: real "
+              "termination (watchdogs only); results with reference semantics (assumed away, notes/C16_judgement_1); "
+              "Split.run itself (C03). 25 property theorems + 14 supporting ones (AUX_THEOREMS: constructor contract, glue "
+              "between model functions, closed witnesses, the generator-keeping adapter variant).")
 TECHNIQUE = "Lean 4 proof over hand-written model + exhaustive-in-scope correspondence check"
 DESIGN_REF = "DESIGN.md section 3, C16"
